@@ -189,6 +189,27 @@ def build_pool(ctx):
         m = rd().MolFromSmiles(smi)
         if m is not None and smi not in pool.by_name:
             pool.add(smi, m)
+    # random larger molecules, radicals and adsorbates (the C02-C04 generator), fixed gas / surface species
+    from . import lib_molgen as LG
+    rng = ctx.rng
+    for smi in LG.FIXED_GAS + LG.FIXED_SURFACE:
+        m = rd().MolFromSmiles(smi)
+        if m is not None and m.GetNumHeavyAtoms() <= 12 and smi not in pool.by_name:
+            pool.add(smi, m)
+    for k in range(ctx.n(150, 900)):
+        smi = LG.gen_smiles(rng, kind=rng.choice(['gas', 'gas', 'gas', 'surface']), max_heavy=rng.choice([3, 4, 5, 6, 8]))
+        m = rd().MolFromSmiles(smi) if smi else None
+        if m is not None and smi not in pool.by_name:
+            pool.add(smi, m)
+            ctx.count('mols_random')
+    # renumbered copies (the products must not depend on the atom order of the reactant)
+    base = [e for e in pool.entries if 2 <= len(e['g']['atoms']) <= 16]
+    for e in rng.sample(base, min(len(base), ctx.n(120, 600))):
+        try:
+            pool.add(e['name'] + '#perm', MG.renumbered(e['mol'], rng))
+            ctx.count('mols_renumbered')
+        except Exception:
+            pass
     ctx.count('mols_total', len(pool.entries))
     for k, v in pool.skipped.items():
         ctx.count('mols_skipped_' + k, v)
@@ -597,7 +618,7 @@ def run_apply_tie(ctx, pool):
             ctx.count('api_%s_%s' % (k, v))
     ents = [e for e in pool.entries if 2 <= len(e['g']['atoms']) <= 14]
     reqs, impls, inps = [], [], []
-    for _ in range(ctx.n(700, 8000)):
+    for _ in range(ctx.n(2500, 30000)):
         ent = rng.choice(ents)
         n = len(ent['g']['atoms'])
         k = rng.choice([1, 2, 2, 3])
@@ -700,7 +721,7 @@ def run(ctx):
         return rc
     # 1. designed rules
     for rule in RU.template_rules():
-        do_rule(rule, 'designed', ctx.n(8, 40), layout=False)
+        do_rule(rule, 'designed', ctx.n(12, 60), layout=False)
         if ctx.time_left() < 120:
             break
     # the docstring example on ethane, explicitly
@@ -708,12 +729,12 @@ def run(ctx):
     if doc.read == 'ok':
         check_pair(ctx, doc, pool.by_name['CC'], requests)
     # 2. random balanced rules, 3. the same made unbalanced by one change, 4. random unbalanced ones
-    for i in range(ctx.n(900, 12000)):
+    for i in range(ctx.n(2500, 30000)):
         if ctx.time_left() < 120:
             ctx.count('stopped_early_time')
             break
         rule = RU.rand_rule(rng, balanced=True)
-        do_rule(rule, 'random_balanced', ctx.n(5, 10))
+        do_rule(rule, 'random_balanced', ctx.n(6, 10))
         if i % 3 == 0:
             do_rule(RU.unbalance(rng, rule), 'unbalanced_by_one_change', 2)
         if i % 4 == 1:
